@@ -11,7 +11,7 @@ for i,l in enumerate(src):
     else: out.append(l)
 out.append('(get-unsat-core)')
 open('/tmp/ucore.smt2','w').write('\n'.join(out))
-r=subprocess.run(['z3-new','-T:60','/tmp/ucore.smt2'],capture_output=True,text=True).stdout
+r=subprocess.run(['z3-new','smt.auto_config=false','-T:200','/tmp/ucore.smt2'],capture_output=True,text=True).stdout
 print(r.split('\n')[0])
 core=re.findall(r'a\d+',r.split('\n',1)[1] if '\n' in r else '')
 for n in sorted(core,key=lambda x:int(x[1:])): print(names[n][:600])
